@@ -242,15 +242,15 @@ def gen_headings(rng):
         suffix = " [%s]" % manual if manual else ""
         th = t.encode().hex()
         if style == "atx":
-            l = rng.randint(1, 6); blocks.append("#" * l + " " + t + suffix); spec = "A %d 0 %s" % (l, th)
+            l = rng.randint(1, 6); blocks.append("#" * l + " " + t + suffix); spec = "A %d 0 %s" % (l, th); lvl = l
         elif style == "atxc":
-            l = rng.randint(1, 6); c = rng.randint(1, 6); blocks.append("#" * l + " " + t + suffix + " " + "#" * c); spec = "A %d %d %s" % (l, c, th)
+            l = rng.randint(1, 6); c = rng.randint(1, 6); blocks.append("#" * l + " " + t + suffix + " " + "#" * c); spec = "A %d %d %s" % (l, c, th); lvl = l
         elif style == "s1":
-            n = rng.randint(2, 12); blocks.append(t + suffix + "\n" + "=" * n); spec = "S1 %d %s" % (n, th)
+            n = rng.randint(2, 12); blocks.append(t + suffix + "\n" + "=" * n); spec = "S1 %d %s" % (n, th); lvl = 1
         else:
-            n = rng.randint(2, 12); blocks.append(t + suffix + "\n" + "-" * n); spec = "S2 %d %s" % (n, th)
+            n = rng.randint(2, 12); blocks.append(t + suffix + "\n" + "-" * n); spec = "S2 %d %s" % (n, th); lvl = 2
         if manual: spec = "M " + manual.encode().hex()
-        heads.append(dict(title=t, style=style, manual=manual, spec=spec))
+        heads.append(dict(title=t, style=style, manual=manual, spec=spec, level=lvl))
         blocks.append(rng.choice(["Some text.", "More words here.", "> quoted", "* item"]))
     # one paragraph per reference so that each href can be attributed
     refs = []
@@ -259,7 +259,10 @@ def gen_headings(rng):
         form = rng.choice(["[%s][]", "[%s]", "[see it][%s]"])
         if rng.random() < 0.3: key = ascii_case(key, rng.random() < 0.5)          # labels fold case for A-Z only
         blocks.append("REF%d %s." % (j, form % key)); refs.append(j)
-    if rng.random() < 0.6: blocks.insert(rng.randrange(len(blocks) + 1) if rng.random() < 0.5 else len(blocks), "{{TOC}}")
+    if rng.random() < 0.6:
+        # the whole table of contents, or one restricted to a range of (source) heading levels
+        lo = rng.randint(1, 3); hi = rng.randint(lo, 6)
+        blocks.insert(rng.randrange(len(blocks) + 1) if rng.random() < 0.5 else len(blocks), rng.choice(["{{TOC}}", "{{TOC}}", "{{TOC:%d-%d}}" % (lo, hi), "{{TOC:%d}}" % lo]))
     cap = None
     if rng.random() < 0.5:
         cap = "Table " + rng.choice(["One", "two 2", "R&D"])
@@ -346,7 +349,9 @@ def headings_part(rep, tier, rng, bad):
                 nref += 1
         if bad_ref: bad.append((bad_ref[0], bad_ref[1], case)); continue
         if toc:
-            if toc_hrefs != ids:
+            mt = re.search(rb"\{\{TOC(?::(\d)(?:-(\d))?)?\}\}", text)
+            lo_, hi_ = (int(mt.group(1)) if mt and mt.group(1) else 1), (int(mt.group(2)) if mt and mt.group(2) else (int(mt.group(1)) if mt and mt.group(1) else 6))
+            if toc_hrefs != [i_ for i_, h in zip(ids, heads) if lo_ <= h["level"] <= hi_]:
                 bad.append(("toc-target", "table of contents targets %s, heading ids %s" % (toc_hrefs, ids), case)); continue
             ntoc += len(toc_hrefs)
         if cap:
